@@ -6,6 +6,10 @@ import os, sys, math, json
 from fractions import Fraction
 
 sys.path.insert(0, os.path.dirname(os.path.abspath(__file__)))
+if os.environ.get("SUMMER2_REPO"):
+    # exploration runs (vp run --with-repo) execute a SNAPSHOT of the repository so that they do not see seeded changes being
+    # applied to /repo meanwhile; registered checks never set this and import /repo's working tree
+    sys.path.insert(0, os.environ["SUMMER2_REPO"])
 import jaxfix  # noqa: F401  (must come before anything importing jax)
 import numpy as np
 import jax
